@@ -245,10 +245,10 @@ Definition ours (n : node) (cid : Z) (Y : pk) (au : tag) (ce : cenc) (o : oracle
           | None => done n []
           | Some x =>
               match dh x Y with
-              | None => done (schedule_rm n cid) []                   (* except ValueError *)
+              | None => done n []               (* except ValueError: logged, the answer is ignored (fix 48d1509) *)
               | Some s1 =>
                   match dh x (cpk (p_key (h_peer u))) with
-                  | None => done (schedule_rm n cid) []
+                  | None => done n []
                   | Some s2 =>
                       if negb (tag_eqb au (mac s1 Y)) then fail CryptoError n []   (* not a ValueError *)
                       else
